@@ -470,6 +470,3 @@ def _classify(fi, atom):
     return (None, None)
 
 
-def _is_clamp(e, var):
-    return (isinstance(e, ast.Call) and isinstance(e.func, ast.Name) and e.func.id == "min"
-            and any(mentions_name(a, var) for a in e.args) and any(mentions_attr(a, "max_amplification") for a in e.args))
